@@ -1125,7 +1125,7 @@ theorem parseVersion_safe (c : Cfg e) (fuel : Nat) (ctx : Ctx) (s : PState) (hp 
     dsimp -zeta only
     refine Safe.bind_attempt (c.L_refl _) (getIdentifier_safe c ctx s hp) ?_ ?_
     · intro name s1 hpos1 hl1 _
-      dsimp -zeta only
+      simp only [getState_bind]
       refine Safe.ite ?_ ?_
       · intro _
         have hp1 : c.Pre s1 := fun hpb => (hpos1 hpb).2
@@ -1169,7 +1169,7 @@ theorem parseVersion_safe (c : Cfg e) (fuel : Nat) (ctx : Ctx) (s : PState) (hp 
       · intro _
         exact resetTail_safe c _ _ s1 _ hl1
     · intro d s1 hpos1 hl1
-      dsimp -zeta only
+      simp only [getState_bind]
       rw [if_neg (by simp)]
       exact resetTail_safe c _ _ s1 _ hl1
 
